@@ -9,6 +9,7 @@
 //	start                     start the consumer (go Handler() / RunService.Start())
 //	release                   let a consumer parked in an `h` closure go on
 //	stop                      Sche.Stop() / RunService.Stop()
+//	end                       end of the case (the model driver replays the whole case through the model here)
 //	observation: exec=<p>.<seq>,... g=<goroutines> fill=<len(chanTask)> P=<p>:<ok>:<nil>:<blocked>:<panicked>;...
 //
 // Waterfall cases (reset kind=w, consumer running):
@@ -478,6 +479,10 @@ func exec(op string) string {
 	if e == nil {
 		return "bad-op"
 	}
+	if ws[0] == "end" { // end of a case: the model driver replays the whole scheduler case here
+		synctest.Wait()
+		return "ok"
+	}
 	if e.kind == "s" {
 		switch ws[0] {
 		case "burst":
@@ -609,6 +614,52 @@ type gen struct {
 	run func(op string) string
 }
 
+// note: histogram of what the scheduler observations reached (blocked posters, refused posts, closures
+// drained after Stop, executions under a parked consumer's release, ...)
+func note(h *hx.T, op, obs string, stopped bool) {
+	ws := hx.Words(obs)
+	ex, _ := hx.KV(ws, "exec")
+	rows, _ := hx.KV(ws, "P")
+	blocked, refused := 0, 0
+	if rows != "-" {
+		for _, r := range strings.Split(rows, ";") {
+			f := strings.Split(r, ":")
+			if len(f) == 5 {
+				if f[3] == "1" {
+					blocked++
+				}
+				if f[2] != "0" {
+					refused++
+				}
+			}
+		}
+	}
+	if blocked > 0 {
+		h.Count(fmt.Sprintf("s.obs.blocked-posters.%d", blocked))
+	}
+	if refused > 0 {
+		h.Count("s.obs.posts-refused")
+	}
+	if ex != "-" && ex != "" {
+		n := strings.Count(ex, ",") + 1
+		b := "1-9"
+		if n >= 1000 {
+			b = ">=1000"
+		} else if n >= 100 {
+			b = "100-999"
+		} else if n >= 10 {
+			b = "10-99"
+		}
+		h.Count("s.obs.exec." + b)
+		if stopped {
+			h.Count("s.obs.exec-after-stop")
+		}
+	}
+	if hx.KVInt(ws, "fill") >= sche.QueueSize {
+		h.Count("s.obs.channel-full")
+	}
+}
+
 func (g *gen) cons() string {
 	if g.h.R.Intn(2) == 0 {
 		return "h"
@@ -656,6 +707,12 @@ func (g *gen) scheCase() {
 	pre := []int{0, 0, 3, qs - 1, qs, qs + 1, qs + 501, 40}[R.Intn(8)]
 	h.Count(fmt.Sprintf("s.prefill.%d", pre))
 	started, stopped := false, false
+	run0 := g.run
+	g = &gen{h: h, run: func(op string) string {
+		obs := run0(op)
+		note(h, op, obs, stopped && op != "stop")
+		return obs
+	}}
 	panicPct := []int{0, 5, 30}[R.Intn(3)]
 	burst := func(total int, holdPct int) {
 		// split `total` closures over a random subset of posters
@@ -880,7 +937,8 @@ func (g *gen) sweep() {
 	}
 }
 
-func TestRun(t *testing.T) {
+// bubble runs `body` inside one synctest bubble with the trace plumbing; it never returns (syscall.Exit).
+func bubble(t *testing.T, body func(h *hx.T, run func(op string) string)) {
 	// silence the panic reports of doTask / Post (stack traces through logrus) and "RunServeice loop end"
 	log.SetOutput(io.Discard)
 	for _, n := range []string{"exception", "default"} {
@@ -890,22 +948,41 @@ func TestRun(t *testing.T) {
 	}
 	h := hx.Open()
 	synctest.Test(t, func(t *testing.T) {
-		run := func(op string) string {
+		emit := func(op string) string {
 			obs := exec(op)
 			h.Emit(op, obs)
 			h.Flush() // whole lines only, also when the code under test takes the process down
 			return obs
 		}
-		finish := func() {
-			cur.cleanup()
-			h.Close()
-			syscall.Exit(0)
+		open := false
+		run := func(op string) string {
+			if strings.HasPrefix(op, "reset") {
+				if open {
+					emit("end")
+				}
+				open = true
+			} else if op == "end" {
+				open = false
+			}
+			return emit(op)
 		}
+		body(h, run)
+		if open {
+			emit("end")
+		}
+		cur.cleanup()
+		h.Close()
+		syscall.Exit(0)
+	})
+}
+
+func TestRun(t *testing.T) {
+	bubble(t, func(h *hx.T, run func(op string) string) {
 		if ops := hx.ReplayOps(); ops != nil {
 			for _, op := range ops {
 				run(op)
 			}
-			finish()
+			return
 		}
 		g := &gen{h: h, run: run}
 		for _, op := range hx.CorpusOps(hx.Env("VERIF_CORPUS", "corpus/C15")) {
@@ -924,6 +1001,70 @@ func TestRun(t *testing.T) {
 				g.wfCase()
 			}
 		}
-		finish()
+	})
+}
+
+// TestExhaustive (thorough tier): every chain of length <= 3 over the completion modes
+// {sync, goroutine, later, twice, never} x {ok, error}, later completions delivered in order and the
+// first one delivered a second time; and every fill level cap-2..cap+2 x consumer x Stop position with
+// two posters racing for the last slots.
+func TestExhaustive(t *testing.T) {
+	bubble(t, func(h *hx.T, run func(op string) string) {
+		ms := []byte("sgltn")
+		var all [][]string
+		var rec func(prefix []string, n int)
+		rec = func(prefix []string, n int) {
+			if len(prefix) == n {
+				all = append(all, append([]string(nil), prefix...))
+				return
+			}
+			for _, m := range ms {
+				for e := 0; e < 2; e++ {
+					rec(append(prefix, fmt.Sprintf("%c%da%d", m, e, 1+len(prefix))), n)
+				}
+			}
+		}
+		for n := 0; n <= 3; n++ {
+			rec(nil, n)
+		}
+		id := 0
+		for i, specs := range all {
+			if i%40 == 0 {
+				run("reset kind=w cons=" + []string{"h", "r"}[(i/40)%2])
+				id = 0
+			}
+			id++
+			base := len(cur.pend)
+			run(fmt.Sprintf("chain id=%d via=sche tasks=%s", id, strings.Join(specs, ",")))
+			for k := base; k < len(cur.pend); k++ { // cur.pend grows while the chain advances
+				run(fmt.Sprintf("fire k=%d via=%s", k, []string{"go", "main", "timer", "post"}[k%4]))
+			}
+			if len(cur.pend) > base {
+				run(fmt.Sprintf("fire k=%d via=go", base)) // the first later-task completes a second time
+			}
+		}
+		h.Stats["exhaustive.wf.len<=3.modes=sgltn.err=01"] = len(all)
+		qs := sche.QueueSize
+		cnt := 0
+		for _, cons := range []string{"h", "r"} {
+			for pre := qs - 2; pre <= qs+2; pre++ {
+				for stopAt := 0; stopAt < 3; stopAt++ {
+					run("reset kind=s cons=" + cons)
+					run(fmt.Sprintf("burst p0=n%d", pre-3))
+					run("burst p1=n3x1 p2=n4")
+					if stopAt == 0 {
+						run("stop")
+					}
+					run("start")
+					run("burst p1=n2 p2=n2 p0=x1")
+					if stopAt == 1 {
+						run("stop")
+					}
+					run("burst p3=n3")
+					cnt++
+				}
+			}
+		}
+		h.Stats["exhaustive.sche.fill=cap-2..cap+2.x.cons.x.stop"] = cnt
 	})
 }
